@@ -6,6 +6,7 @@ CONSTANTS
   Seeds <- MCSeeds
   Blocks <- MCBlocks
   Firsts <- MCFirsts
+  AltExtFirsts <- MCAltFirsts
   ClearVol = FALSE
   Emit = FALSE
 INVARIANTS
